@@ -8,8 +8,9 @@ Conventions.
   expression is evaluated by `ck` (= `C14.arith` in `intmax_t`): a result outside the type is not a constant
   expression, the instantiation is ill-formed, and the model returns `.error`.  `gcd` is the model of
   `etl::gcd` of C14 (Euclid's loop in the unsigned common type).  A ratio specialisation is modelled by its
-  members `num`/`den` *and* by the template arguments it was instantiated with (`Rat.targs`): tetl's
-  `ratio_add<R1,R2>` names `ratio<X, Y>` with the unreduced `X`, `Y`.
+  members `num`/`den` *and* by the template arguments it was instantiated with (`tn`, `td`): the arithmetic
+  aliases name `ratio<X, Y>::type`.  `detail::ratio_add_impl` and `detail::ratio_less_impl` are `constexpr`
+  functions evaluated in a constant expression: the same rule (`ck`) applies to each of their operators.
 * (b) numeric_limits.  An integer specialisation is a function of (bits, signedness, kind); the members are
   the expressions of the header (`digits = CHAR_BIT*sizeof(T) - is_signed`, `digits10 = digits*3/10`, …).
 * (c) structural traits.  Partial specialisations are pattern matches on `CType` (Types.lean); `T const`
@@ -44,6 +45,12 @@ def absI (n : Int) : Except Err Int := if n ≥ 0 then .ok n else ck (n * (-1))
 def divI (a b : Int) : Except Err Int :=
   if b = 0 then .error (.pre "ub: division by zero") else ck (Int.tdiv a b)
 
+/-- signed `%` of two `intmax_t` (`%0` and `MIN % -1` are not constant expressions) -/
+def modI (a b : Int) : Except Err Int :=
+  if b = 0 then .error (.pre "ub: remainder by zero") else do
+    let _ ← ck (Int.tdiv a b)
+    .ok (Int.tmod a b)
+
 /-- a specialisation `ratio<tn, td>` with its members -/
 structure Rat where
   num : Int
@@ -66,55 +73,133 @@ def ratioDen (n d : Int) : Except Err Int := do
   let g ← C14.gcd imax imax n d
   divI a g
 
-/-- instantiate `ratio<n, d>` -/
-def mkRatio (n d : Int) : Except Err Rat := do
-  let a ← ratioNum n d
-  let b ← ratioDen n d
-  .ok ⟨a, b, n, d⟩
+/-- instantiate `ratio<n, d>`: `static_assert(Denom != 0)`, then the two members -/
+def mkRatio (n d : Int) : Except Err Rat :=
+  if d = 0 then .error (.pre "static_assert: denominator cannot be zero") else do
+    let a ← ratioNum n d
+    let b ← ratioDen n d
+    .ok ⟨a, b, n, d⟩
 
-/-- `ratio_add<R1,R2> = ratio<R1::num * R2::den + R2::num * R1::den, R1::den * R2::den>` -/
-def ratioAdd (a b : Rat) : Except Err Rat := do
-  let x ← ck (a.num * b.den)
-  let y ← ck (b.num * a.den)
-  let n ← ck (x + y)
-  let d ← ck (a.den * b.den)
-  mkRatio n d
+/-- `typename R::type` = `ratio<R::num, R::den>` -/
+def Rat.type (r : Rat) : Except Err Rat := mkRatio r.num r.den
 
-/-- `ratio_subtract<R1,R2> = ratio<R1::num * R2::den - R2::num * R1::den, R1::den * R2::den>` -/
-def ratioSub (a b : Rat) : Except Err Rat := do
-  let x ← ck (a.num * b.den)
-  let y ← ck (b.num * a.den)
-  let n ← ck (x - y)
-  let d ← ck (a.den * b.den)
-  mkRatio n d
-
-/-- `ratio_multiply<R1,R2> = ratio<R1::num * R2::num, R1::den * R2::den>` -/
+/-- `detail::ratio_multiply_impl<R1, R2>`: `gcd1 = gcd(R1::num, R2::den)`, `gcd2 = gcd(R2::num, R1::den)`,
+    `type = ratio<(R1::num / gcd1) * (R2::num / gcd2), (R1::den / gcd2) * (R2::den / gcd1)>::type` -/
 def ratioMul (a b : Rat) : Except Err Rat := do
-  let n ← ck (a.num * b.num)
-  let d ← ck (a.den * b.den)
-  mkRatio n d
+  let g1 ← C14.gcd imax imax a.num b.den
+  let g2 ← C14.gcd imax imax b.num a.den
+  let x1 ← divI a.num g1
+  let x2 ← divI b.num g2
+  let n ← ck (x1 * x2)
+  let y1 ← divI a.den g2
+  let y2 ← divI b.den g1
+  let d ← ck (y1 * y2)
+  let r ← mkRatio n d
+  r.type
 
-/-- `ratio_divide<R1,R2> = ratio<R1::num * R2::den, R1::den * R2::num>` -/
-def ratioDiv (a b : Rat) : Except Err Rat := do
-  let n ← ck (a.num * b.den)
-  let d ← ck (a.den * b.num)
-  mkRatio n d
+/-- `detail::ratio_divide_impl<R1, R2>`: `static_assert(R2::num != 0)`,
+    `type = ratio_multiply_impl<R1, ratio<R2::den, R2::num>>::type` -/
+def ratioDiv (a b : Rat) : Except Err Rat :=
+  if b.num = 0 then .error (.pre "static_assert: division by zero") else do
+    let r ← mkRatio b.den b.num
+    ratioMul a r
+
+/-- `n % d < 0 ? n / d - 1 : n / d` and `n % d < 0 ? n % d + d : n % d`: `n == i * d + f`, `0 <= f < d` -/
+def floorParts (n d : Int) : Except Err (Int × Int) := do
+  let r ← modI n d
+  let q ← divI n d
+  let i ← if r < 0 then ck (q - 1) else .ok q
+  let f ← if r < 0 then ck (r + d) else .ok r
+  .ok (i, f)
+
+/-- `(f / g2) * k + (f % g2) * k / g2` (= `⌊f * k / g2⌋`) -/
+def mulDiv (f k g2 : Int) : Except Err Int := do
+  let p ← divI f g2
+  let pk ← ck (p * k)
+  let r ← modI f g2
+  let rk ← ck (r * k)
+  let q ← divI rk g2
+  ck (pk + q)
+
+/-- `detail::ratio_add_impl(n1, d1, n2, d2)`, statement by statement -/
+def ratioAddImpl (n1 d1 n2 d2 : Int) : Except Err (Int × Int) := do
+  let g ← C14.gcd imax imax d1 d2
+  let a ← divI d1 g
+  let b ← divI d2 g
+  let (i1, f1) ← floorParts n1 d1
+  let (i2, f2) ← floorParts n2 d2
+  -- m1 = (f1 % g) * b % g;  m2 = (f2 % g) * a % g
+  let t1 ← modI f1 g
+  let u1 ← ck (t1 * b)
+  let m1 ← modI u1 g
+  let t2 ← modI f2 g
+  let u2 ← ck (t2 * a)
+  let m2 ← modI u2 g
+  -- m = m1 >= g - m2 ? m1 - (g - m2) : m1 + m2
+  let gm ← ck (g - m2)
+  let m ← if m1 ≥ gm then ck (m1 - gm) else ck (m1 + m2)
+  let g2 ← C14.gcd imax imax m g
+  -- den = (d1 / g2) * b
+  let dg ← divI d1 g2
+  let den ← ck (dg * b)
+  let x ← mulDiv f1 b g2
+  let y ← mulDiv f2 a g2
+  -- c = (f1 % g2) * b % g2 != 0 ? 1 : 0
+  let r1 ← modI f1 g2
+  let rb ← ck (r1 * b)
+  let rr ← modI rb g2
+  let c : Int := if rr ≠ 0 then 1 else 0
+  -- carry = x >= den - y
+  let dy ← ck (den - y)
+  let carry : Bool := decide (x ≥ dy)
+  -- f = carry ? x - (den - y) + c : x + y + c
+  let f ← if carry then do let t ← ck (x - dy); ck (t + c) else do let t ← ck (x + y); ck (t + c)
+  -- i = carry ? i1 + i2 + 1 : i1 + i2
+  let i12 ← ck (i1 + i2)
+  let i ← if carry then ck (i12 + 1) else .ok i12
+  -- num = i >= 0 ? i * den + f : (i + 1) * den - (den - f)
+  let num ← if i ≥ 0 then do let t ← ck (i * den); ck (t + f)
+            else do let i' ← ck (i + 1); let t ← ck (i' * den); let u ← ck (den - f); ck (t - u)
+  .ok (num, den)
+
+/-- `detail::ratio_add_type<R1, R2>`: `sum = ratio_add_impl(R1::num, R1::den, R2::num, R2::den)`,
+    `type = ratio<sum.num, sum.den>::type` -/
+def ratioAdd (a b : Rat) : Except Err Rat := do
+  let s ← ratioAddImpl a.num a.den b.num b.den
+  let r ← mkRatio s.1 s.2
+  r.type
+
+/-- `ratio_subtract<R1, R2> = ratio_add_type<R1, ratio<-R2::num, R2::den>>::type` -/
+def ratioSub (a b : Rat) : Except Err Rat := do
+  let nb ← ck (-b.num)
+  let r ← mkRatio nb b.den
+  ratioAdd a r
 
 /-- `ratio_equal`: `R1::num == R2::num && R1::den == R2::den` -/
 def ratioEqual (a b : Rat) : Bool := a.num == b.num && a.den == b.den
 /-- `ratio_not_equal`: `!ratio_equal_v` -/
 def ratioNotEqual (a b : Rat) : Bool := !ratioEqual a b
 
-/-- the two cross products `R1::num * R2::den`, `R2::num * R1::den` of the ordering traits -/
-def cross (a b : Rat) : Except Err (Int × Int) := do
-  let x ← ck (a.num * b.den)
-  let y ← ck (b.num * a.den)
-  .ok (x, y)
+/-- the loop of `detail::ratio_less_impl` (`fuel` bounds the number of iterations: the denominators decrease
+    strictly, `ratioLess` starts with `d1 + 1`; running out of fuel is reported as an error) -/
+def ratioLessLoop : Nat → Bool → Int → Int → Int → Int → Except Err Bool
+  | 0, _, _, _, _, _ => .error (.pre "model: iteration bound exceeded")
+  | fuel + 1, flip, n1, d1, n2, d2 => do
+    let (q1, f1) ← floorParts n1 d1
+    let (q2, f2) ← floorParts n2 d2
+    if q1 ≠ q2 then .ok (if flip then decide (q2 < q1) else decide (q1 < q2))
+    else if f1 = 0 ∨ f2 = 0 then
+      .ok (if flip then decide (f2 = 0) && decide (f1 ≠ 0) else decide (f1 = 0) && decide (f2 ≠ 0))
+    else ratioLessLoop fuel (!flip) d1 f1 d2 f2
 
-def ratioLess (a b : Rat) : Except Err Bool := do let (x, y) ← cross a b; .ok (decide (x < y))
-def ratioLessEqual (a b : Rat) : Except Err Bool := do let (x, y) ← cross a b; .ok (decide (x ≤ y))
-def ratioGreater (a b : Rat) : Except Err Bool := do let (x, y) ← cross a b; .ok (decide (x > y))
-def ratioGreaterEqual (a b : Rat) : Except Err Bool := do let (x, y) ← cross a b; .ok (decide (x ≥ y))
+/-- `ratio_less<R1, R2>`: `detail::ratio_less_impl(R1::num, R1::den, R2::num, R2::den)` -/
+def ratioLess (a b : Rat) : Except Err Bool := ratioLessLoop (a.den.toNat + 1) false a.num a.den b.num b.den
+/-- `ratio_less_equal<R1, R2>`: `!ratio_less<R2, R1>::value` -/
+def ratioLessEqual (a b : Rat) : Except Err Bool := do let r ← ratioLess b a; .ok (!r)
+/-- `ratio_greater<R1, R2>`: `ratio_less<R2, R1>::value` -/
+def ratioGreater (a b : Rat) : Except Err Bool := ratioLess b a
+/-- `ratio_greater_equal<R1, R2>`: `!ratio_less<R1, R2>::value` -/
+def ratioGreaterEqual (a b : Rat) : Except Err Bool := do let r ← ratioLess a b; .ok (!r)
 
 /-- the alias names the reduced specialisation itself (`is_same_v<R, ratio<R::num, R::den>>`) -/
 def Rat.canonical (r : Rat) : Bool := r.tn == r.num && r.td == r.den
@@ -229,7 +314,8 @@ def isUnboundedArray : CType → Bool
 
 /-- `__is_enum(T)` -/
 def isEnum : CType → Bool
-  | base b _ => b == .enumU || b == .enumUF || b == .enumS || b == .enumSC
+  | base b _ => b == .enumU || b == .enumUF || b == .enumS || b == .enumSC || b == .enumSS || b == .enumUS || b == .enumL
+      || b == .enumULL
   | _ => false
 /-- `__is_class(T)` -/
 def isClass : CType → Bool
@@ -289,7 +375,7 @@ def isUnsigned (t : CType) : Bool :=
 
 /-- `is_convertible_v<T, underlying_type_t<T>>` for an enumeration: only unscoped ones convert implicitly -/
 def enumConvertsToUnderlying : CType → Bool
-  | base b _ => b == .enumU || b == .enumUF
+  | base b _ => b == .enumU || b == .enumUF || b == .enumSS || b == .enumULL
   | _ => false
 /-- `requires is_enum_v<T>` → `not is_convertible_v<T, underlying_type_t<T>>` -/
 def isScopedEnum (t : CType) : Bool := if isEnum t then !enumConvertsToUnderlying t else false
@@ -362,6 +448,7 @@ def typeIdentity (t : CType) : CType := t
 def sizeOfBase : Base → Nat
   | .wchar => 4 | .char8 => 1 | .char16 => 2 | .char32 => 4
   | .enumU => 4 | .enumUF => 2 | .enumS => 4 | .enumSC => 1
+  | .enumSS => 1 | .enumUS => 2 | .enumL => 8 | .enumULL => 8
   | .bool | .char | .schar | .uchar => 1
   | .short | .ushort => 2
   | .int | .uint | .float => 4
@@ -424,6 +511,10 @@ def underlyingBase : Base → Option Base
   | .enumUF => some .short
   | .enumS => some .int
   | .enumSC => some .uchar
+  | .enumSS => some .schar
+  | .enumUS => some .ushort
+  | .enumL => some .long
+  | .enumULL => some .ullong
   | _ => none
 
 /-- `detail::underlying_type<T>`: `requires is_enum_v<T>` → `__underlying_type(T)`, otherwise no member `type` -/
